@@ -396,6 +396,13 @@ impl ArchiveManager {
         file.flush()
             .map_err(|e| StorageError::Archive(format!("Failed to flush: {e}")))?;
 
+        // The callers save the index entry that points at this data right after the
+        // write (temp file, fsync, rename). Make the data durable first: otherwise a
+        // crash can leave a durable index entry for an object whose bytes never
+        // reached the disk, which then reads back truncated or as garbage.
+        file.sync_data()
+            .map_err(|e| StorageError::Archive(format!("Failed to sync: {e}")))?;
+
         // Remap if the file grew: reads are served from the memory mapping and
         // are bounded by its length, so a mapping that does not cover the data
         // just written makes that entry unreadable.
